@@ -83,6 +83,17 @@ func H_C04_store_faults() {
 	nd.Assert("C04.fault.followup-write", e.db.Insert("c", mkDoc(map[string]interface{}{"_id": poolIds[2], "x": 0.5})) == nil)
 	docs, ferr := e.db.FindAll(query.NewQuery("c"))
 	nd.Assert("C04.fault.followup-read", ferr == nil && len(docs) == 3)
+	// nothing of the failed operation lingers in the handle: catalog, counts and index set are those of the store
+	a.coll("c").docs = append(a.coll("c").docs, &absDoc{id: poolIds[2], fields: map[string]interface{}{"_id": poolIds[2], "x": 0.5}})
+	n, cerr := e.db.Count(query.NewQuery("c"))
+	nd.Assert("C04.fault.followup-count", cerr == nil && n == 3)
+	hx, e1 := e.db.HasIndex("c", "x")
+	hy, e2 := e.db.HasIndex("c", "y")
+	hf, e3 := e.db.HasCollection("fresh")
+	nd.Assert("C04.fault.followup-catalog", e1 == nil && e2 == nil && e3 == nil && hx && !hy && !hf)
+	byIdx, ierr := e.db.FindAll(query.NewQuery("c").Where(query.Field("x").GtEq(-100.0)))
+	nd.Assert("C04.fault.followup-index-query", ierr == nil && len(byIdx) == 2)
+	audit("C04.fault.followup", e.ms, a)
 	nd.Reach("end")
 }
 
